@@ -588,9 +588,9 @@ Proof.
 Qed.
 
 (** * 5. the load pipeline *)
-Lemma load_model_is_spec : forall u, load_model u = load_spec u.
+Lemma load_model_is_spec : forall q u, load_model q u = load_spec q u.
 Proof.
-  intros u. unfold load_model, load_spec, load_with.
+  intros q u. unfold load_model, load_spec, load_with.
   destruct (negb _); [reflexivity|].
   assert (F : forall v raw, from_file_with conv_code v raw = from_file_with conv_spec v raw).
   { intros v raw. unfold from_file_with. destruct (decode_fields _ raw); [|reflexivity].
@@ -624,10 +624,10 @@ Proof.
   destruct (validate i') as [[]|e|s] eqn:E; try discriminate. inversion H; subst. exact E.
 Qed.
 
-Theorem load_result_valid : forall u l,
-  load_model u = Ok l -> l_version l = 3 /\ validate (l_info l) = Ok tt.
+Theorem load_result_valid : forall q u l,
+  load_model q u = Ok l -> l_version l = 3 /\ validate (l_info l) = Ok tt.
 Proof.
-  intros u l H. unfold load_model, load_with in H.
+  intros q u l H. unfold load_model, load_with in H.
   destruct (negb _); [discriminate|].
   destruct (match u_fontinfo u with Some raw => _ | None => _ end) as [info|e|s] eqn:E; try discriminate.
   assert (V : validate info = Ok tt).
@@ -641,9 +641,9 @@ Proof.
   - inversion H; subst. cbn. auto.
 Qed.
 
-Theorem load_no_panic : forall u s, load_model u <> Panic s.
+Theorem load_no_panic : forall q u s, load_model q u <> Panic s.
 Proof.
-  intros u s H. unfold load_model, load_with in H.
+  intros q u s H. unfold load_model, load_with in H.
   destruct (negb _); [discriminate|].
   destruct (match u_fontinfo u with Some raw => _ | None => _ end) as [info|e|s'] eqn:E; try discriminate.
   - destruct (if u_version u =? 1 then u_lib u else None) as [libfile|]; [|discriminate].
@@ -715,14 +715,14 @@ Proof.
   exact (table_convert_typed (schema_of v) (table_of v) r i (rows_typed_of v) D T).
 Qed.
 
-Lemma load_info_shape : forall u l,
-  load_model u = Ok l ->
+Lemma load_info_shape : forall q u l,
+  load_model q u = Ok l ->
   exists info, (forall k x, get info k = Some x ->
                   In k (map target_of spec_v1_table) \/ In k (map target_of spec_v2_table)) /\
                typed ufo3_schema info /\
                (l_info l = info \/ exists h, l_info l = apply_hints h info).
 Proof.
-  intros u l H. unfold load_model, load_with in H.
+  intros q u l H. unfold load_model, load_with in H.
   destruct (negb _); [discriminate|].
   destruct (match u_fontinfo u with Some raw => _ | None => _ end) as [info|e|s] eqn:E; try discriminate.
   exists info. split; [|split].
@@ -743,11 +743,11 @@ Qed.
 
 (** the structured format-3 attributes (guidelines, gasp and name records, WOFF data) are absent
     from every loaded legacy info: the [None]s of the projection are exact *)
-Lemma load_complex_absent : forall u l k,
-  load_model u = Ok l -> In k complex_keys -> get (l_info l) k = None.
+Lemma load_complex_absent : forall q u l k,
+  load_model q u = Ok l -> In k complex_keys -> get (l_info l) k = None.
 Proof.
-  intros u l k H Hk. destruct (complex_not_target k Hk) as (N1 & N2 & N3).
-  destruct (load_info_shape u l H) as (info & Hkeys & _ & Hshape).
+  intros q u l k H Hk. destruct (complex_not_target k Hk) as (N1 & N2 & N3).
+  destruct (load_info_shape q u l H) as (info & Hkeys & _ & Hshape).
   assert (G : get info k = None).
   { destruct (get info k) as [x|] eqn:G; [|reflexivity]. exfalso.
     destruct (Hkeys k x G); contradiction. }
@@ -788,9 +788,9 @@ Proof.
     eexists; (split; [vm_compute; reflexivity|reflexivity]).
 Qed.
 
-Lemma load_typed : forall u l, load_model u = Ok l -> typed ufo3_schema (l_info l).
+Lemma load_typed : forall q u l, load_model q u = Ok l -> typed ufo3_schema (l_info l).
 Proof.
-  intros u l H. destruct (load_info_shape u l H) as (info & _ & Ht & [E|[h E]]); rewrite E.
+  intros q u l H. destruct (load_info_shape q u l H) as (info & _ & Ht & [E|[h E]]); rewrite E.
   - exact Ht.
   - apply apply_hints_typed. exact Ht.
 Qed.
@@ -833,4 +833,76 @@ Proof.
   - intros s G. unfold project. cbn [FontInfo.i_date]. rewrite G. reflexivity.
   - intros l G. unfold project, proj_list. cbn [FontInfo.i_blue]. rewrite G.
     cbn [option_map]. rewrite map_length. reflexivity.
+Qed.
+
+(** * 7. what the request does and does not influence *)
+Definition res_info (r : result loaded lerr) : result kv lerr :=
+  match r with Ok l => Ok (l_info l) | Err e => Err e | Panic s => Panic s end.
+
+(** whether the load succeeds, with which error, and the resulting font info (converted
+    attributes AND the hint data of the format-1 lib) do not depend on the request *)
+Theorem info_independent_of_request : forall q q' u,
+  res_info (load_model q u) = res_info (load_model q' u).
+Proof.
+  intros q q' u. unfold load_model, load_with.
+  destruct (negb _); [reflexivity|].
+  destruct (match u_fontinfo u with Some raw => _ | None => _ end) as [info|e|s]; try reflexivity.
+  destruct (if u_version u =? 1 then u_lib u else None) as [libfile|]; [|reflexivity].
+  unfold robofab_with. destruct (decode_libdata libfile) as [ld|]; [|reflexivity].
+  destruct (ld_hint ld) as [h|]; [|reflexivity].
+  destruct (validate (apply_hints h info)) as [[]|e|s]; reflexivity.
+Qed.
+
+(** the feature text of the format-1 lib reaches the font whatever the request; the request
+    only decides whether features.fea is read when the lib has no feature text *)
+Theorem robofab_features_independent_of_request : forall q u l ld,
+  load_model q u = Ok l -> u_version u = 1 -> u_lib u = Some ld ->
+  forall d, decode_libdata ld = Some d -> feature_text d <> "" -> l_features l = feature_text d.
+Proof.
+  intros q u l ld H V L d D F. unfold load_model, load_with in H.
+  rewrite V, L in H. change (1 =? 1) with true in H. cbv iota in H.
+  destruct (negb _); [discriminate|].
+  destruct (match u_fontinfo u with Some raw => _ | None => _ end) as [info|e|s]; try discriminate.
+  unfold robofab_with in H. rewrite D in H.
+  assert (E : String.eqb (feature_text d) "" = false).
+  { destruct (String.eqb (feature_text d) "") eqn:E; [|reflexivity].
+    apply String.eqb_eq in E. contradiction. }
+  destruct (ld_hint d) as [h|].
+  - destruct (validate (apply_hints h info)) as [[]|e|s]; try discriminate.
+    rewrite E in H. inversion H; subst l. cbn [l_features]. rewrite E. reflexivity.
+  - rewrite E in H. inversion H; subst l. cbn [l_features]. rewrite E. reflexivity.
+Qed.
+
+(** the lib of the font: nothing when it was not requested; otherwise the file's entries minus
+    [public.objectLibs] and (format 1) minus the four RoboFab keys *)
+Theorem lib_of_request : forall q u l,
+  load_model q u = Ok l ->
+  (q_lib q = false -> l_lib l = []) /\
+  (forall k v, In (k, v) (l_lib l) -> k <> PUBLIC_OBJECT_LIBS_KEY /\
+     exists d, u_lib u = Some d /\ In (k, v) d).
+Proof.
+  intros q u l H. unfold load_model, load_with in H.
+  destruct (negb _); [discriminate|].
+  destruct (match u_fontinfo u with Some raw => _ | None => _ end) as [info|e|s]; try discriminate.
+  set (lib0 := match (if q_lib q then u_lib u else None) with Some l0 => l0 | None => [] end) in *.
+  assert (L : l_lib l = remove_key PUBLIC_OBJECT_LIBS_KEY lib0 \/
+              l_lib l = remove_keys robofab_lib_keys (remove_key PUBLIC_OBJECT_LIBS_KEY lib0)).
+  { destruct (if u_version u =? 1 then u_lib u else None) as [libfile|].
+    - unfold robofab_with in H. destruct (decode_libdata libfile) as [ld|]; [|discriminate].
+      destruct (ld_hint ld) as [h|].
+      + destruct (validate (apply_hints h info)) as [[]|e|s]; try discriminate.
+        inversion H; subst l. right. reflexivity.
+      + inversion H; subst l. right. reflexivity.
+    - inversion H; subst l. left. reflexivity. }
+  assert (In0 : forall k v, In (k, v) (l_lib l) -> In (k, v) lib0 /\ k <> PUBLIC_OBJECT_LIBS_KEY).
+  { intros k v Hin. assert (Hin' : In (k, v) (remove_key PUBLIC_OBJECT_LIBS_KEY lib0)).
+    { destruct L as [L|L]; rewrite L in Hin; [exact Hin|]. apply remove_keys_In in Hin. tauto. }
+    unfold remove_key in Hin'. apply filter_In in Hin'. destruct Hin' as [H1 H2]. split; [exact H1|].
+    cbn [fst] in H2. intros C. subst k. rewrite String.eqb_refl in H2. discriminate. }
+  split.
+  - intros Q. subst lib0. rewrite Q in *. destruct (l_lib l) as [|[k v] r] eqn:E; [reflexivity|].
+    exfalso. destruct (In0 k v (or_introl eq_refl)) as [[] _].
+  - intros k v Hin. destruct (In0 k v Hin) as [H1 H2]. split; [exact H2|].
+    subst lib0. destruct (q_lib q); [|destruct H1].
+    destruct (u_lib u) as [d|]; [|destruct H1]. exists d. auto.
 Qed.
